@@ -49,7 +49,11 @@ func (a *Account) clone() *Account {
 		tr:      a.tr,
 	}
 	for k, v := range a.storage {
-		c.storage[k] = v // values are replaced, never mutated in place
+		if a.tr != nil && a.tr.alias {
+			c.storage[k] = append([]byte{}, v...) // aliasing world: the code under test may write into stored slices
+		} else {
+			c.storage[k] = v // values are replaced, never mutated in place
+		}
 	}
 	return c
 }
@@ -154,6 +158,9 @@ func (a *Account) IsInterfaceNil() bool { return a == nil }
 
 // RetrieveValue is a storage read: not counted, never faulted.
 func (a *Account) RetrieveValue(key []byte) ([]byte, error) {
+	if a.tr != nil && a.tr.alias {
+		return a.storage[string(key)], nil
+	}
 	return append([]byte(nil), a.storage[string(key)]...), nil
 }
 
@@ -168,6 +175,10 @@ func (a *Account) SaveKeyValue(key []byte, value []byte) error {
 func (a *Account) rawWrite(key []byte, value []byte) {
 	if len(value) == 0 {
 		delete(a.storage, string(key))
+		return
+	}
+	if a.tr != nil && a.tr.alias {
+		a.storage[string(key)] = value
 		return
 	}
 	a.storage[string(key)] = append([]byte{}, value...)
